@@ -218,13 +218,11 @@ impl Parser {
         enclosing_namespace: NamespaceRef,
     ) -> AvroResult<Schema> {
         fn get_schema_ref(parsed: &Schema) -> Schema {
-            match parsed {
-                &Schema::Record(RecordSchema { ref name, .. })
-                | &Schema::Enum(EnumSchema { ref name, .. })
-                | &Schema::Fixed(FixedSchema { ref name, .. }) => {
-                    Schema::Ref { name: name.clone() }
-                }
-                _ => parsed.clone(),
+            // Every named schema is referenced by name, also a fixed that carries a logical type:
+            // the same reference as when the schema happens to be parsed before its first use
+            match parsed.name() {
+                Some(name) => Schema::Ref { name: name.clone() },
+                None => parsed.clone(),
             }
         }
 
